@@ -240,16 +240,21 @@ def check_cli(case, ctx: Ctx):
         # integer it denotes
         from decimal import Decimal
 
-        for spell in ("10kb", "4.1Mb", "8.2M", "2.01k", "64.1kb", "2.5Mb", "1k", "16.4M", "2.05Mb"):
+        big_path = os.path.join(d, "big.chrom.sizes")
+        big_names, big_lengths = ["chrA", "chrB"], [40_000_001, 4_100_000]
+        with open(big_path, "w") as f:
+            for n_, L_ in zip(big_names, big_lengths):
+                f.write(f"{n_}\t{L_}\n")
+        for spell in ("10kb", "4.1Mb", "8.2M", "2.01k", "64.1kb", "2.5Mb", "1k", "16.4M", "2.05Mb")[w % 3::3]:
             try:
-                cs_u, bins_u = parse_bins(f"{cs_path}:{spell}")
+                cs_u, bins_u = parse_bins(f"{big_path}:{spell}")
             except (Exception, SystemExit):  # noqa: BLE001 - refusal is the unchanged tree's answer
                 continue
             num = spell.rstrip("bB")
             scale = {"k": 1000, "m": 10**6, "g": 10**9}[num[-1].lower()]
             denoted = Decimal(num[:-1]) * scale
             check(denoted == int(denoted), f"parse_bins accepted {spell!r}, which is not an integer number of bp")
-            want_u = model.bins_rows(model.binnify(names, lengths, int(denoted)))
+            want_u = model.bins_rows(model.binnify(big_names, big_lengths, int(denoted)))
             check(_frame_rows(bins_u) == want_u,
                   lambda: f"parse_bins('<chromsizes>:{spell}') made bins of width {(bins_u['end'] - bins_u['start']).max()}, {spell} denotes {int(denoted)} bp")
         # spelling 2: BED file of bins (use the makebins output without header/ids)
